@@ -37,7 +37,7 @@ OBLIGATIONS += [
 for kern, kname in ((1, 'MergeExternal'), (2, 'MergeInPlace'), (3, 'MergeInternal')):
     OBLIGATIONS.append(dict(
         name='kern_%s_2x2' % kname, src='h_kern.c', defs=['KERN=%d' % kern, 'NA=2', 'NB=2'], units=['src/instant.c'], incl=['src/event.c'], replay_units='all',
-        unwind=8, unwindset={'memcpy.*': 52, 'memmove.*': 33, 'memset.*': 4}, checks=['--bounds-check', '--pointer-check'], solver='cadical', timeout=900, mem_gb=16, tiers=('thorough',) if kern == 2 else ('quick', 'thorough'),
+        unwind=8, unwindset={'memcpy.*': 52, 'memmove.*': 33, 'memset.*': 4}, checks=['--bounds-check', '--pointer-check'], solver='minisat' if kern == 2 else 'cadical', slice_formula=kern == 2, timeout=2400 if kern == 2 else 900, mem_gb=16, tiers=('thorough',) if kern == 2 else ('quick', 'thorough'),
         stubs=['word-wise memcpy (harness/common/libc_models.h)'],
         enc=[kname, 'BinaryFirst', 'BinaryLast', 'Rotate', 'Reverse', 'BlockSwap'], sym='run lengths 1..3 each and every key (8-value domain with all-day/all-second ties)',
         bounds='two adjacent sorted runs of <= 2 events each', outside='longer runs (3x3 in the thorough tier); the block selection logic of WikiSort above 1024 elements'))
